@@ -102,7 +102,11 @@ def rule_R1(ctx, repo, flow):
         ctx.check(ok, "R1", key + ":y-validated", "y passes check_y (or the call is delegated to the fitted inner forecaster)",
                   "%s.update_predict uses y (y.index[0] in _predict_moving_cutoff) without check_y: array-typed or empty y fails with an "
                   "unrelated AttributeError/IndexError" % k.name, ctx.loc(k.module, fn))
-        raw = _raw_uses(fn, "cv", ("check_cv",), forward_to="update_predict")
+        cv_validators = ("check_cv",) + tuple(sorted(
+            m_ for kk in repo.mro(c) if isinstance(kk, ClassInfo) for m_, f_ in kk.methods.items()
+            if m_ != "update_predict" and any(astq.call_name(c_) == "check_cv" and c_.args and dotted(c_.args[0]) in astq.param_names(f_)
+                                              for c_ in astq.calls(f_))))  # own helpers that validate the splitter they are handed
+        raw = _raw_uses(fn, "cv", cv_validators, forward_to="update_predict")
         ctx.check(not raw, "R1", key + ":cv-validated", "cv is only used through check_cv(cv) or None tests",
                   "cv is used unvalidated at line(s) %s" % ", ".join(str(n.lineno) for n in raw), ctx.loc(k.module, fn))
 
@@ -264,6 +268,10 @@ def rule_R1(ctx, repo, flow):
         oos = all(_ev3(pcs.raises, dict(zip(oth3, v_), **{rel3[0]: True, oos3[0]: False})) for v_ in _pr3((False, True), repeat=len(oth3)))
     else:
         oos = False if not oos3 else None
+        if not oos3:
+            from ._c20_specs import helper_rejects_in_sample as _hr
+            hr = _hr(repo, m, sb)  # the relative branch may live in a module-level helper
+            oos = hr if hr is not None else False
     ctx.check(oos, "R1", "_split_by_fh:out-of-sample", "relative in-sample horizons are rejected",
               "_split_by_fh does not reject in-sample horizons" if oos is False else "rejection condition of _split_by_fh not interpretable: %s" % ats3,
               ctx.loc(m, sb))
@@ -350,10 +358,14 @@ def rule_R1(ctx, repo, flow):
                           for vals in _product((False, True), repeat=len(rest)))
     ctx.check(ok_bool, "R1", "ForecastingHorizon.__init__:is_relative-bool", "non-bool is_relative rejected on every path",
               "is_relative is not type-checked (rejection condition %s)" % show(pci.raises), ctx.loc(fhc.module, init))
-    ctx.check(ok_type, "R1", "ForecastingHorizon.__init__:type-compat",
-              "a value type admitted for neither relative nor absolute horizons is rejected whatever is_relative is",
-              "index type vs relative/absolute compatibility is not enforced on every path (rejection condition %s)" % show(pci.raises),
-              ctx.loc(fhc.module, init))
+    if ok_type is None:
+        ctx.info("R1 ForecastingHorizon.__init__:type-compat: the container-type test is not expressed as `type(values) in <table>` path "
+                 "conditions (e.g. behind a predicate helper); kind compatibility is then decided by C02-R4 and R2 kind-compat where locatable")
+    else:
+      ctx.check(ok_type, "R1", "ForecastingHorizon.__init__:type-compat",
+                "a value type admitted for neither relative nor absolute horizons is rejected whatever is_relative is",
+                "index type vs relative/absolute compatibility is not enforced on every path (rejection condition %s)" % show(pci.raises),
+                ctx.loc(fhc.module, init))
 
 
 def _raw_data_args(ctx, repo, module, fn, checker, params, label):
